@@ -403,46 +403,19 @@ Proof.
   - right; exists m, s; reflexivity.
 Qed.
 
+Lemma both_modes_total st pat : fst (both_modes st pat) = Report \/ fst (both_modes st pat) = NoReport.
+Proof.
+  unfold both_modes, check_pattern.
+  destruct (validator_total st pat true) as [[s ->]|[m [s ->]]]; [right; reflexivity|].
+  destruct (validator_total s pat false) as [[s' ->]|[m' [s' ->]]]; [right|left]; reflexivity.
+Qed.
+
 Corollary check_regex_total : forall st pat fl,
   fst (check_regex st pat fl) = Report \/ fst (check_regex st pat fl) = NoReport.
 Proof.
-  intros st pat fl. unfold check_regex, both_modes, check_pattern.
-  destruct (validate_flags fl); [left; reflexivity|].
-  assert (Hb : forall st0, fst (match
-     match validate_pattern st0 pat true with
-     | Ok _ s => PvValid s | SyntaxErr m s => PvInvalid m s | Panic p => PvPanic p | OutOfFuel => PvFuel end
-     with
-     | PvValid s => (NoReport, s)
-     | PvInvalid _ s =>
-         match
-           match validate_pattern s pat false with
-           | Ok _ s0 => PvValid s0 | SyntaxErr m s0 => PvInvalid m s0 | Panic p => PvPanic p | OutOfFuel => PvFuel end
-         with
-         | PvValid s' => (NoReport, s') | PvInvalid _ s' => (Report, s')
-         | PvPanic p => (RulePanic p, s) | PvFuel => (RuleFuel, s)
-         end
-     | PvPanic p => (RulePanic p, st0)
-     | PvFuel => (RuleFuel, st0)
-     end) = Report \/ fst (match
-     match validate_pattern st0 pat true with
-     | Ok _ s => PvValid s | SyntaxErr m s => PvInvalid m s | Panic p => PvPanic p | OutOfFuel => PvFuel end
-     with
-     | PvValid s => (NoReport, s)
-     | PvInvalid _ s =>
-         match
-           match validate_pattern s pat false with
-           | Ok _ s0 => PvValid s0 | SyntaxErr m s0 => PvInvalid m s0 | Panic p => PvPanic p | OutOfFuel => PvFuel end
-         with
-         | PvValid s' => (NoReport, s') | PvInvalid _ s' => (Report, s')
-         | PvPanic p => (RulePanic p, s) | PvFuel => (RuleFuel, s)
-         end
-     | PvPanic p => (RulePanic p, st0)
-     | PvFuel => (RuleFuel, st0)
-     end) = NoReport).
-  { intros st0. destruct (validator_total st0 pat true) as [[s ->]|[m [s ->]]]; [right; reflexivity|].
-    destruct (validator_total s pat false) as [[s' ->]|[m' [s' ->]]]; [right|left]; reflexivity. }
-  destruct fl as [|c fl]; [apply Hb|].
-  destruct (validator_total st pat (existsb (N.eqb 117) (c :: fl))) as [[s ->]|[m [s ->]]]; [apply Hb|left; reflexivity].
+  intros st pat [fl|]; unfold check_regex; [|apply both_modes_total].
+  destruct (validate_flags fl); [left; reflexivity|]. unfold check_pattern.
+  destruct (validator_total st pat (existsb (N.eqb 117) fl)) as [[s ->]|[m [s ->]]]; [right|left]; reflexivity.
 Qed.
 
 Print Assumptions validator_never_panics.
